@@ -72,7 +72,7 @@ theorem mid_step {P : Par} (hP : P.Ok) {out : List Nat} {w : W} {c0 : Client.Cli
   generalize hc : ({ sentState c0 with sendPingSoon := 0 } : Client.Cli) = c at hsf hcst
   have hwc : w.cs = ⟨c, .tunnel⟩ := by rw [cstate_eta w.cs h.ph, h.cli, hc]
   -- the answer as the client's `read_dns` delivers it
-  generalize hrq : (Client.Rq.mk (pkt.length : Int) (sentState c0).chunkid P.ty 0 (name.headD 0) pkt) = rq
+  generalize hrq : (Client.Rq.mk (pkt.length : Int) (sentState c0).chunkid (answerType P.ty) 0 (name.headD 0) pkt) = rq
   have hcid : c.chunkid = (sentState c0).chunkid := by rw [← hc]
   have hdl : Client.tunnelDns c rq = Client.upstream (ackBook c) (Client.decodeHdr pkt) [] false 2 := by
     have := tunnelDns_dataless c rq (by subst hrq; show name.headD 0 = c.useridChar; rw [headD_eq_getD, hsf.useridChar, h.ready.stat.uch]; exact hQ.c0)
